@@ -114,14 +114,21 @@ CLAIMS = {
     "C10": dict(
         text=("Lean 4: Leak.check_iff/check_first (the end-of-iteration check fails iff some Arc count ≠ 0, some "
               "allocation undropped, some channel non-empty; first offender decides), Alloc.flag_is_dropped, "
-              "C10_iteration, no stage reports a leak. Evaluated: leak verdict iff reference end state leaks; known "
-              "findings F7, F12 (raw allocation leak aborts)."),
+              "C10_iteration, no stage reports a leak; and the run-level theorem for the resource fragment (Arc API, "
+              "Track, raw allocations over the lock fragment): Refine3.leak_reported_iff_reference_leaks - at the end "
+              "of every run the leak check fails iff the related reference state leaks, with the matching kind "
+              "(Props/Refine3.lean). Evaluated: leak verdict iff reference end state leaks (incl. raw blocks at "
+              "recycled addresses); F12 repaired (8c1ee7c); known finding F7."),
         ref="DESIGN.md §3 C10",
         technique="Lean 4 theorems on the leak check + reference leak oracle + decision replay"),
     "C11": dict(
         text=("Lean 4: ArcObj.refines_refcount_* (every Arc operation computes the reference counter's result), ArcInv "
-              "preserved, drop_once, drops_hb_final, Dep.arc tables, one-step simulation of Spec/SC. Evaluated against "
-              "reference outcomes incl. payload drop counts; known finding F10."),
+              "preserved, drop_once, drops_hb_final, Dep.arc tables (a decrement depends on the later of the last "
+              "decrement and the last inspection: F10a repaired in d0747ef; Dep.arc_single_inspect_slot = the remaining "
+              "weakness F10), and the run-level REFINEMENT Refine3.run_is_reference_execution: every twin run over "
+              "programs using the whole Arc API of the DSL is a reference execution with equal results of strong_count / "
+              "get_mut / try_unwrap / ptr_eq / drop (Props/Refine3.lean). Evaluated against reference outcomes incl. "
+              "payload drop counts; known finding F10 (rest)."),
         ref="DESIGN.md §3 C11",
         technique="Lean 4 refinement lemmas for the Arc object + reference outcomes + decision replay"),
     "C13": dict(
